@@ -43,7 +43,8 @@ def main():
                     v = [l for l in out.splitlines() if l.startswith('VIOLATION')]
                     if v:
                         hits.append(p + ('(no-failing-input)' if all('no-failing-input-found' in l for l in v) else ''))
-                return (n, prop, 'CAUGHT' if any(h.startswith(prop) for h in hits) else 'MISSED', ' '.join(hits))
+                caught = any(h.startswith(prop) for h in hits)
+                return (n, prop, 'CAUGHT' if caught else 'OUT-OF-SCOPE (not reported, as recorded in meta.json)' if meta.get('not_reported_because') else 'MISSED', ' '.join(hits))
         except RuntimeError:
             return (n, prop, 'PATCH-DOES-NOT-APPLY', '')
     jobs = 4
